@@ -94,7 +94,7 @@ func genCase(t *rapid.T) Case {
 		sizeGen = rapid.OneOf(rapid.IntRange(1, 64), big, big)
 	}
 	opGen := rapid.Custom(func(t *rapid.T) Op {
-		k := rapid.SampledFrom([]string{"ins", "ins", "ins", "ins", "insfill", "get", "over", "over", "overbad", "del", "del", "writeload", "writeat", "empty", "toolarge"}).Draw(t, "k")
+		k := rapid.SampledFrom([]string{"ins", "ins", "ins", "ins", "insfill", "get", "over", "over", "overbad", "del", "del", "writeload", "writeat", "snapcopy", "empty", "toolarge"}).Draw(t, "k")
 		op := Op{K: k, Seed: rapid.IntRange(0, 1<<20).Draw(t, "seed")}
 		switch k {
 		case "ins":
@@ -210,6 +210,26 @@ func run(c Case) vt.Verdict {
 			return vt.KnownOr(kfIndirect, "%s", d)
 		}
 		return vt.Bad("%s", d)
+	}
+
+	// inFirst: the object's bytes are held, at the offset its id names, by the first direct block of the grown heap (the
+	// open finding concerns the blocks added later, whose ids do not address them)
+	inFirst := func(o obj) bool {
+		if len(o.id) != 8 || fh.RootIndirectBlock == nil || len(fh.DirectBlocks) == 0 {
+			return false
+		}
+		var first *structures.WritableDirectBlock
+		var key uint64
+		for k, b := range fh.DirectBlocks {
+			if first == nil || k < key {
+				first, key = b, k
+			}
+		}
+		off := leUint(o.id[1 : 1+osz])
+		if first == nil || key != 0 || off+uint64(len(o.data)) > uint64(len(first.Objects)) {
+			return false
+		}
+		return bytes.Equal(first.Objects[off:off+uint64(len(o.data))], o.data)
 	}
 
 	checkAll := func(step int, op Op) *vt.Verdict {
@@ -412,6 +432,9 @@ func run(c Case) vt.Verdict {
 			o := &live[op.Obj%len(live)]
 			nd := payload(len(o.data), op.Seed+step+7)
 			if err := fh.OverwriteObject(o.id, nd); err != nil {
+				if inFirst(*o) {
+					return vt.Bad("step %d (%s): same-size overwrite of live id %x, an object of the first direct block: %v", step, op.K, o.id, err)
+				}
 				return fail(step, op, "same-size overwrite of live id %x: %v", o.id, err)
 			}
 			o.data = nd
@@ -434,6 +457,9 @@ func run(c Case) vt.Verdict {
 			i := op.Obj % len(live)
 			o := live[i]
 			if err := fh.DeleteObject(o.id); err != nil {
+				if inFirst(o) {
+					return vt.Bad("step %d (%s): delete of live id %x, an object of the first direct block: %v", step, op.K, o.id, err)
+				}
 				return fail(step, op, "delete of live id %x: %v", o.id, err)
 			}
 			liveBytes -= uint64(len(o.data))
@@ -445,6 +471,11 @@ func run(c Case) vt.Verdict {
 		case "writeat":
 			if v := writeLoad(step, op, true); v != nil {
 				return *v
+			}
+		case "snapcopy":
+			// a copy of the current state is saved somewhere else; the heap object goes on working on its own location
+			if _, err := fh.WriteToFile(file, file, sb); err != nil {
+				return fail(step, op, "WriteToFile (copy): %v", err)
 			}
 		default:
 			return vt.Skipped("unknown op")
@@ -543,5 +574,7 @@ func TestProp(t *testing.T) {
 			f.Close()
 		}
 	}()
-	vt.Run(t, prop, vt.Sub[Case]{Prop: prop, Name: "history", Gen: genCase, Run: run, Classify: classify}.WithBudget(15000, 120000))
+	vt.Run(t, prop,
+		vt.Sub[Case]{Prop: prop, Name: "history", Gen: genCase, Run: run, Classify: classify}.WithBudget(15000, 120000),
+		vt.Sub[AttrReadCase]{Prop: prop, Name: "attrread", Gen: genAttrRead, Run: runAttrRead, Classify: classifyAttrRead}.WithBudget(1500, 15000))
 }
